@@ -1,5 +1,5 @@
 """C02 - abrupt worker death is always detected and fails the pool loudly."""
-from .base import Prop, V, gen_knobs, gen_model, gen_task, submit_op, hang_violations, fut_state
+from .base import focus_hot, Prop, V, gen_knobs, gen_model, gen_task, submit_op, hang_violations, fut_state
 from . import execfam as X
 
 DEATH_KINDS = ["exit", "kill"]
@@ -44,7 +44,7 @@ def gen(rng, tier, sweep=None):
         for _ in range(rng.choice([1, 1, 2])):
             faults.append(dict(kind="kill", target=["w", rng.randrange(workers)],
                                sig=rng.choice([9, 9, 11, 15]), at=["op", rng.randint(1, 120)]))
-    return dict(family="death", knobs=gen_knobs(rng, tier), model=gen_model(rng), threads=threads, faults=faults)
+    return dict(family="death", knobs=focus_hot(rng, gen_knobs(rng, tier), threads), model=gen_model(rng), threads=threads, faults=faults)
 
 
 class C02(Prop):
